@@ -347,6 +347,92 @@ theorem str2str_never_loaded (h : Bytes → Nat) (s : Bytes) :
     s2sGet h Str2Str.init s = .ok none ∧ s2sLen Str2Str.init = .ok 0 := by
   simp [s2sGet, s2sLen, Str2Str.init, SMap.get, StrMap.init, len]
 
+/-! ## constructors (`NewFromSlice`, `NewFromMap`, `NewStr2StrFromSlice/Map`) and `String()` -/
+
+/-- a constructor is a load on a fresh `New()` object: it returns the object exactly when that load
+    succeeds, and the object is the loaded one -/
+theorem newFromSlice_eq_load (h : Bytes → Nat) (sorter : List (Item V) → List (Item V))
+    (kk : List Bytes) (vv : List V) (m : StrMap V) :
+    newFromSlice h sorter kk vv = .ok m ↔ loadFromSlice h sorter StrMap.init kk vv = (.ok (), m) := by
+  unfold newFromSlice
+  generalize loadFromSlice h sorter StrMap.init kk vv = r
+  obtain ⟨o, m'⟩ := r
+  cases o <;> simp
+
+theorem newFromMap_eq_load (h : Bytes → Nat) (sorter : List (Item V) → List (Item V))
+    (order : List (Bytes × V)) (m : StrMap V) :
+    newFromMap h sorter order = .ok m ↔ loadFromMap h sorter StrMap.init order = (.ok (), m) :=
+  newFromSlice_eq_load h sorter _ _ m
+
+/-- where the constructors differ from the loaders: an error return becomes a panic carrying the
+    error (mismatched lengths: "kv len not match"), and there is no object -/
+theorem newFromSlice_mismatch_panics (h : Bytes → Nat) (sorter : List (Item V) → List (Item V))
+    (kk : List Bytes) (vv : List V) (hne : kk.length ≠ vv.length) :
+    newFromSlice h sorter kk vv = .panic "kv len not match" := by
+  unfold newFromSlice
+  rw [(failed_load_unchanged h sorter StrMap.init kk vv).1 hne]; rfl
+
+/-- `NewFromMap` of a Go map with contents `kvs` (any range order): an object that answers like it -/
+theorem newFromMap_get (h : Bytes → Nat) (sorter : List (Item V) → List (Item V))
+    (hs : IsSlotSort sorter) (kvs order : List (Bytes × V)) (s : Bytes)
+    (hperm : order.Perm kvs) (hd : MapSpec.DistinctKeys kvs) (hf : Fits kvs) :
+    ∃ m, newFromMap h sorter order = .ok m ∧ get h m s = .ok (MapSpec.get kvs s) ∧
+      len m = MapSpec.len kvs := by
+  have hf' : Fits order := ⟨fun kv hkv => hf.keys32 kv (hperm.mem_iff.mp hkv), by
+    rw [hperm.length_eq]; exact hf.count⟩
+  have hok := load_ok h sorter hs StrMap.init order hf'
+  have hget := get_eq_lookup_fromMap h sorter hs StrMap.init kvs order s hperm hd hf
+  have hlen := (len_items h sorter hs StrMap.init order hf').1
+  unfold load at hok hlen
+  unfold loadFromMap at hget
+  refine ⟨(loadFromSlice h sorter StrMap.init (order.map (·.1)) (order.map (·.2))).2, ?_, hget, ?_⟩
+  · rw [newFromMap_eq_load]; unfold loadFromMap
+    exact Prod.ext hok rfl
+  · rw [hlen]; unfold MapSpec.len; exact hperm.length_eq
+
+/-- `NewFromSlice(kk, vv)` with distinct keys: an object that answers like the Go map -/
+theorem newFromSlice_get (h : Bytes → Nat) (sorter : List (Item V) → List (Item V))
+    (hs : IsSlotSort sorter) (kk : List Bytes) (vv : List V) (s : Bytes)
+    (hlen : kk.length = vv.length) (hd : kk.Nodup) (hk : ∀ k ∈ kk, k.length ≤ maxU32)
+    (hn : CountOk kk.length) :
+    ∃ m, newFromSlice h sorter kk vv = .ok m ∧ get h m s = .ok (List.lookup s (kk.zip vv)) := by
+  obtain ⟨hok, hget⟩ := get_eq_lookup_slices h sorter hs StrMap.init kk vv s hlen hd hk hn
+  exact ⟨_, (newFromSlice_eq_load h sorter kk vv _).mpr (Prod.ext hok rfl), hget⟩
+
+/-- `NewStr2StrFromSlice` / `NewStr2StrFromMap`: the same for Str2Str -/
+theorem newStr2StrFromSlice_get (h : Bytes → Nat) (sorter : List (Item Int) → List (Item Int))
+    (hs : IsSlotSort sorter) (kk vv : List Bytes) (s : Bytes)
+    (hlen : kk.length = vv.length) (hd : kk.Nodup)
+    (hk : ∀ k ∈ kk, k.length ≤ maxU32) (hv : ∀ v ∈ vv, v.length ≤ maxU32) (hn : CountOk kk.length) :
+    ∃ sm, newStr2StrFromSlice h sorter kk vv = .ok sm ∧
+      s2sGet h sm s = .ok (List.lookup s (kk.zip vv)) ∧ s2sLen sm = .ok kk.length := by
+  obtain ⟨hok, hget, hl⟩ := str2str_get h sorter hs Str2Str.init kk vv s hlen hd hk hv hn
+  refine ⟨(s2sLoad h sorter Str2Str.init kk vv).2, ?_, hget, hl⟩
+  unfold newStr2StrFromSlice
+  generalize s2sLoad h sorter Str2Str.init kk vv = r at hok
+  obtain ⟨o, m'⟩ := r
+  simp only at hok; subst hok; rfl
+
+/-- `String()` does not panic on a never-loaded, an empty or any loaded map -/
+theorem string_no_panic (h : Bytes → Nat) (sorter : List (Item V) → List (Item V))
+    (hs : IsSlotSort sorter) (st : StrMap V) (kvs : List (Bytes × V)) (hf : Fits kvs) :
+    stringCall (StrMap.init : StrMap V) = .ok () ∧ stringCall (load h sorter st kvs).2 = .ok () := by
+  constructor
+  · simp [stringCall, StrMap.init]
+  · obtain ⟨m', hm, hL⟩ := loadFromSlice_spec h sorter hs st kvs hf.count hf.keys32
+    unfold load; rw [hm]
+    unfold stringCall
+    have : m'.items.all (fun e => (keyAt m'.data e).isSome) = true := by
+      rw [List.all_eq_true]
+      intro e he
+      have hmem : (keyAt m'.data e, e.slot, e.v) ∈
+          kvs.map (fun kv => (some kv.1, h kv.1 % two32 % m'.ht.size, kv.2)) :=
+        hL.perm.mem_iff.mp (List.mem_map.mpr ⟨e, he, rfl⟩)
+      obtain ⟨kv, _, hkv⟩ := List.mem_map.mp hmem
+      injection hkv with h1 _
+      rw [← h1]; rfl
+    simp [this]
+
 /-! ## non-vacuity: concrete instances inside the hypotheses, with colliding hashes -/
 
 /-- all keys collide (constant hash), keys are prefixes of one another and include the empty key;
